@@ -798,6 +798,97 @@ fn case_rayon(rng: &mut Rng, replay: &str) -> (Verdict, u64) {
     (Verdict::Held, 1)
 }
 
+
+/// Short-circuiting consumers: an upstream `map` stage counts every item that is pulled through the
+/// adaptor; whatever the consumer does with it afterwards, the bar must have advanced by exactly that
+/// count once the pipeline has returned (and the result must be the bare pipeline's result).
+fn case_rayon_short(rng: &mut Rng, replay: &str) -> (Verdict, u64) {
+    use std::sync::atomic::{AtomicU64, Ordering::SeqCst};
+    let n = match rng.below(4) {
+        0 => rng.range(1, 4),
+        1 => rng.range(1, 100),
+        _ => rng.range(100, 20_000),
+    } as usize;
+    let threads = rng.range(1, 16) as usize;
+    let consumer = rng.below(10);
+    let name = ["find_any", "find_first", "any", "all", "position_any", "try_for_each", "while_some", "take_any", "find_last", "try_reduce"][consumer as usize];
+    let pb = bar(if rng.chance(1, 2) { Some(n as u64) } else { None }, ProgressFinish::AndLeave);
+    let items: Vec<u64> = (0..n as u64).collect();
+    // the element that trips the short circuit: anywhere, including first, last and "none"
+    let target = match rng.below(5) {
+        0 => 0,
+        1 => n as u64 - 1,
+        2 => n as u64 + 7,
+        _ => rng.range(0, n as u64 - 1),
+    };
+    let indexed = rng.chance(1, 2);
+    let pool = match rayon::ThreadPoolBuilder::new().num_threads(threads).build() {
+        Ok(p) => p,
+        Err(e) => return (Verdict::Inconclusive(format!("cannot build rayon pool: {e}")), 0),
+    };
+    let w = J::obj().with("adaptor", "rayon").with("consumer", name).with("items", n).with("threads", threads).with("target", target).with("indexed_source", indexed);
+    let up = AtomicU64::new(0);
+    let count = |x: &u64| {
+        up.fetch_add(1, SeqCst);
+        *x
+    };
+    let k = rng.range(1, n as u64) as usize;
+    // (result of the adaptor pipeline, result of the bare pipeline), rendered for comparison
+    let (got, want): (String, String) = pool.install(|| {
+        macro_rules! both {
+            ($src:expr, $bare:expr, |$it:ident| $body:expr) => {{
+                let a = {
+                    let $it = $src;
+                    format!("{:?}", $body)
+                };
+                let b = {
+                    let $it = $bare;
+                    format!("{:?}", $body)
+                };
+                (a, b)
+            }};
+        }
+        if indexed {
+            match consumer {
+                0 => both!(items.par_iter().map(count).progress_with(pb.clone()), items.par_iter().map(|x| *x), |it| it.find_any(|x| *x == target)),
+                1 => both!(items.par_iter().map(count).progress_with(pb.clone()), items.par_iter().map(|x| *x), |it| it.find_first(|x| *x >= target)),
+                2 => both!(items.par_iter().map(count).progress_with(pb.clone()), items.par_iter().map(|x| *x), |it| it.any(|x| x == target)),
+                3 => both!(items.par_iter().map(count).progress_with(pb.clone()), items.par_iter().map(|x| *x), |it| it.all(|x| x != target)),
+                4 => both!(items.par_iter().map(count).progress_with(pb.clone()), items.par_iter().map(|x| *x), |it| it.position_any(|x| x == target)),
+                5 => both!(items.par_iter().map(count).progress_with(pb.clone()), items.par_iter().map(|x| *x), |it| it.try_for_each(|x| if x == target { Err(x) } else { Ok(()) })),
+                6 => both!(items.par_iter().map(count).progress_with(pb.clone()), items.par_iter().map(|x| *x), |it| it.map(|x| if x == target { None } else { Some(x) }).while_some().count() <= n),
+                7 => both!(items.par_iter().map(count).progress_with(pb.clone()), items.par_iter().map(|x| *x), |it| it.take_any(k).count()),
+                8 => both!(items.par_iter().map(count).progress_with(pb.clone()), items.par_iter().map(|x| *x), |it| it.find_last(|x| *x <= target)),
+                _ => both!(items.par_iter().map(count).progress_with(pb.clone()), items.par_iter().map(|x| *x), |it| it.map(|x| if x == target { None } else { Some(x) }).try_reduce(|| 0, |a, b| Some(a.max(b)))),
+            }
+        } else {
+            match consumer {
+                0 => both!(items.par_iter().filter(|x| **x % 5 != 1).map(count).progress_with(pb.clone()), items.par_iter().filter(|x| **x % 5 != 1).map(|x| *x), |it| it.find_any(|x| *x == target)),
+                1 | 4 => both!(items.par_iter().filter(|x| **x % 5 != 1).map(count).progress_with(pb.clone()), items.par_iter().filter(|x| **x % 5 != 1).map(|x| *x), |it| it.find_first(|x| *x >= target)),
+                2 => both!(items.par_iter().filter(|x| **x % 5 != 1).map(count).progress_with(pb.clone()), items.par_iter().filter(|x| **x % 5 != 1).map(|x| *x), |it| it.any(|x| x == target)),
+                3 => both!(items.par_iter().filter(|x| **x % 5 != 1).map(count).progress_with(pb.clone()), items.par_iter().filter(|x| **x % 5 != 1).map(|x| *x), |it| it.all(|x| x != target)),
+                5 => both!(items.par_iter().filter(|x| **x % 5 != 1).map(count).progress_with(pb.clone()), items.par_iter().filter(|x| **x % 5 != 1).map(|x| *x), |it| it.try_for_each(|x| if x == target { Err(x) } else { Ok(()) })),
+                6 => both!(items.par_iter().filter(|x| **x % 5 != 1).map(count).progress_with(pb.clone()), items.par_iter().filter(|x| **x % 5 != 1).map(|x| *x), |it| it.map(|x| if x == target { None } else { Some(x) }).while_some().count() <= n),
+                7 => both!(items.par_iter().filter(|x| **x % 5 != 1).map(count).progress_with(pb.clone()), items.par_iter().filter(|x| **x % 5 != 1).map(|x| *x), |it| it.take_any(k).count().min(k)),
+                8 => both!(items.par_iter().filter(|x| **x % 5 != 1).map(count).progress_with(pb.clone()), items.par_iter().filter(|x| **x % 5 != 1).map(|x| *x), |it| it.find_last(|x| *x <= target)),
+                _ => both!(items.par_iter().filter(|x| **x % 5 != 1).map(count).progress_with(pb.clone()), items.par_iter().filter(|x| **x % 5 != 1).map(|x| *x), |it| it.map(|x| if x == target { None } else { Some(x) }).try_reduce(|| 0, |a, b| Some(a.max(b)))),
+            }
+        }
+    });
+    if got != want {
+        return (viol("result-differs-from-bare-source", "rayon-short-circuit", format!("{name} over {n} items on {threads} threads: {got} vs {want} on the bare iterator"), w, replay.into()), 1);
+    }
+    let through = up.load(SeqCst);
+    let pos = pb.position();
+    if pos != through {
+        return (
+            viol("position-not-items-yielded", "rayon-short-circuit", format!("{name} (target {target}, {n} items, {threads} threads, indexed source: {indexed}): {through} items were pulled through the adaptor, position is {pos}"), w, replay.into()),
+            1,
+        );
+    }
+    (Verdict::Held, 1)
+}
+
 fn run_case(seed: u64, idx: u64) -> CaseOut {
     let mut rng = Rng::derive(seed, 17, idx);
     let replay = format!("{seed}:{idx}");
@@ -810,7 +901,8 @@ fn run_case(seed: u64, idx: u64) -> CaseOut {
         3 => case_seek(&mut rng, &replay),
         4 => case_iter(&mut rng, &replay),
         5 | 6 => case_async(&mut rng, &replay),
-        _ => case_rayon(&mut rng, &replay),
+        _ if (idx / 8) % 2 == 0 => case_rayon(&mut rng, &replay),
+        _ => case_rayon_short(&mut rng, &replay),
     }));
     let mut co = CaseOut::held(fnv1a(format!("{seed}:{idx}").as_bytes()), true);
     match r {
@@ -874,7 +966,7 @@ fn main() {
         let n = if thorough { 3_000_000 } else { 60_000 };
         run_parallel(n, workers(), |i| run_case(seed, i))
     };
-    let rule = "families in rotation: Read (read/read_vectored/read_exact/read_to_end on a scripted source with short reads, Interrupted, hard errors, zero-length transfers, EOF), BufRead (fill_buf / partial consume / read_line / read interleaved), Write (write/write_vectored/write_all/flush on a scripted sink), Seek (all three modes, rewind, stream_position on a Cursor), Iterator (next/next_back/len/size_hint, every ProgressFinish), tokio AsyncRead/AsyncBufRead/AsyncWrite/AsyncSeek and futures Stream polled by hand with scripted Pending, rayon pipelines (for_each, map-collect, zip, enumerate, rev, chunks, with_min_len, with_max_len, unindexed filter) on pools of 1-16 threads with 0-20000 items; every call is mirrored on a bare twin; distinct = (seed, index)";
+    let rule = "families in rotation: Read (read/read_vectored/read_exact/read_to_end on a scripted source with short reads, Interrupted, hard errors, zero-length transfers, EOF), BufRead (fill_buf / partial consume / read_line / read interleaved), Write (write/write_vectored/write_all/flush on a scripted sink), Seek (all three modes, rewind, stream_position on a Cursor), Iterator (next/next_back/len/size_hint, every ProgressFinish), tokio AsyncRead/AsyncBufRead/AsyncWrite/AsyncSeek and futures Stream polled by hand with scripted Pending, rayon pipelines (for_each, map-collect, zip, enumerate, rev, chunks, with_min_len, with_max_len, unindexed filter) on pools of 1-16 threads with 0-20000 items, and short-circuiting consumers (find_any/first/last, any, all, position_any, try_for_each, while_some, take_any, try_reduce; indexed and unindexed source; position compared with an upstream counting stage); every call is mirrored on a bare twin; distinct = (seed, index)";
     let mut j = report.to_json("C17", rule, false);
     j.set("wall_s", t0.elapsed().as_secs_f64());
     j.set("seed", seed);
